@@ -379,6 +379,121 @@ class RoundConversion(Contract):
                 "retail_waste_of_meat_handed_to_the_optimiser": V(consts["MEAT_WASTE_RETAIL"]) == md["MEAT_WASTE_RETAIL"]}
 
 
+class MeatProducedTwice(Contract):
+    """The object is built by the real CalculateFeedAndMeat.__init__ (the herd simulation `main` replaced by a recorder
+    returning the herds) and get_meat_produced is called TWICE, as happens when the final round re-uses the no-feed
+    simulation: both answers are the herds' slaughter counts by class (nothing accumulates between calls)."""
+    prop = "C05"
+    file = AP
+    func = "CalculateFeedAndMeat.get_meat_produced"
+    name = "asked_twice_same_answer"
+    replayable = False
+
+    def inputs(self, S):
+        n = S.int("N")
+        S.assume(n >= 1)
+        hs = herds(S, n)
+        self.summaries = {(AP, "main"): lambda interp, ctx, fv, args, kwargs: ([h["obj"] for h in hs], None, None)}
+        calls = [dict(func="CalculateFeedAndMeat", args=["XXX", None, None, "baseline", {}]),
+                 dict(func=self.func, args=[Ref(0)]), dict(func=self.func, args=[Ref(0)])]
+        return dict(calls=calls, hs=hs, n=n)
+
+    def ensures(self, S, a, res):
+        i = S.idx("i", a["n"])
+        r = unwrap(res)
+        return {"first_answer_is_the_herds_slaughter_by_class": And(*[V(r[1][k])[i] == class_total(a["hs"], c, i) for k, c in enumerate(CLASSES)]),
+                "second_answer_is_the_same": And(*[V(r[2][k])[i] == class_total(a["hs"], c, i) for k, c in enumerate(CLASSES)])}
+
+
+class SecondRoundHandOff(Contract):
+    """Parameters.compute_parameters_second_round: the milk offered is EXACTLY what the round's own herd conversion
+    returned (no flooring / mixing with another round), the meat series is that conversion's series re-timed by
+    get_second_round_kcals_with_redistributed_meat (C18) and nothing else, the feed ceiling is the feed those herds
+    used.  Herd simulation, conversion, re-timing and the minimum-needs hand-off enter as recorders."""
+    prop = "C05"
+    file = PA
+    func = "Parameters.compute_parameters_second_round"
+    name = "feed_round_hands_on_its_own_herd_results"
+    replayable = False
+    np_floats = True
+
+    def inputs(self, S):
+        S.set_conversions(S.real("kd"), S.real("fd"), S.real("pd"), False, False, S.real("pop"))
+        n = S.int("N")
+        S.assume(n >= 1)
+        zeros = lambda: V(Arr(unwrap(n), fn=lambda i: Fraction(0), dtype="float"))
+        BK = ("billion kcals each month", "thousand tons each month", "thousand tons each month")
+        KC = ("kcals per person per day each month", "effective kcals per person per day each month", "effective kcals per person per day each month")
+        ser = {k: S.series(k, n) for k in ("meat1", "meat2", "milk1", "milk2", "retimed", "milk1_fat", "milk1_protein", "milk2_fat", "milk2_protein")}
+        S.forall(n, lambda i: And(*[x[i] >= 0 for x in ser.values()]))
+        food = lambda k, u=BK: unwrap(S.food(ser[k], zeros(), zeros(), *u))
+        zero_food = lambda: unwrap(S.food(zeros(), zeros(), zeros(), *KC))
+        tc1 = {"each_month_meat_slaughtered": food("meat1"), "milk_kcals": unwrap(ser["milk1"]), "milk_fat": unwrap(ser["milk1_fat"]), "milk_protein": unwrap(ser["milk1_protein"])}
+        meat2 = food("meat2")
+        log = self.log = {}
+
+        def convert(interp, ctx, fv, args, kwargs):
+            t2 = args[6]
+            t2["each_month_meat_slaughtered"] = meat2
+            t2["milk_kcals"], t2["milk_fat"], t2["milk_protein"] = unwrap(ser["milk2"]), unwrap(ser["milk2_fat"]), unwrap(ser["milk2_protein"])
+            log["herds"] = args[2]
+            return (("MARKER", "feed_used2"), {}, t2, args[5])
+
+        # C18's contract of the re-timing: the total over the horizon is preserved
+        S.assume(S.total(ser["retimed"]) == S.total(ser["meat2"]))
+
+        def retime(interp, ctx, fv, args, kwargs):
+            log["retime_args"] = args[1:]
+            return unwrap(ser["retimed"])
+
+        def ctor(name):
+            def f(interp, ctx, fv, args, kwargs):
+                log[name] = (args[1:], kwargs)
+                if name == "MeatAndDairy":
+                    args[0].attrs.update(human_inedible_feed=("MARKER", "grass"), kcals_per_head_meat_dict={})
+                return None
+            return f
+
+        self.summaries = {
+            (AP, "CalculateFeedAndMeat.__init__"): ctor("herd_simulation"),
+            (MD, "MeatAndDairy.__init__"): ctor("MeatAndDairy"),
+            (MD, "MeatAndDairy.initialize_this_country_animal_kcals"): lambda *a, **k: None,
+            (FB, "FeedAndBiofuels.__init__"): ctor("FeedAndBiofuels"),
+            (FB, "FeedAndBiofuels.get_biofuels_and_feed_from_delayed_shutoff"): lambda interp, ctx, fv, args, kwargs: (("MARKER", "biofuel_demand"), ("MARKER", "feed_demand")),
+            (PA, "Parameters.init_meat_and_dairy_and_feed_from_breeding"): convert,
+            (PA, "Parameters.get_second_round_kcals_with_redistributed_meat"): retime,
+            (PA, "Parameters.calculate_human_consumption_for_min_needs"): lambda interp, ctx, fv, args, kwargs: ("MARKER", "min_needs"),
+            ("src/food_system/food.py", "Food.get_running_total_nutrients_sum"): lambda interp, ctx, fv, args, kwargs: _running(interp, ctx, args[0]),
+        }
+        attrs = {}
+        for f in ("cell_sugar", "outdoor_crops", "scp", "seaweed", "stored_food"):
+            attrs[f + "_biofuels_kcals_equivalent"] = zero_food()
+            attrs[f + "_feed_kcals_equivalent"] = zero_food()
+        ir1 = S.obj("src/optimizer/interpret_results.py", "Interpreter", **attrs)
+        ci = S.opendict("constants_inputs", {"COUNTRY_CODE": "XXX", "BREEDING_STRATEGY": "reduce_breeding"}, closed=True)
+        return dict(args=[S.obj(PA, "Parameters"), ci, {}, tc1, ir1], ser=ser, n=n, tc1=tc1)
+
+    def ensures(self, S, a, res):
+        r = unwrap(res)
+        if r[0] is None:
+            return {"feed_round_hands_on_its_own_herd_results": V(False)}
+        tc2, i, ser, log = r[1], S.idx("i", a["n"]), a["ser"], self.log
+        ra = log.get("retime_args", [None] * 4)
+        same = lambda x, y: V(x is y) if not isinstance(x, Arr) else V(x)[i] == V(y)[i]
+        return {"milk_offered_is_the_feed_rounds_own": And(V(tc2["milk_kcals"])[i] == ser["milk2"][i], V(tc2["milk_fat"])[i] == ser["milk2_fat"][i],
+                                                           V(tc2["milk_protein"])[i] == ser["milk2_protein"][i]),
+                "meat_series_is_the_own_series_re_timed_against_the_no_feed_round": And(
+                    V(tc2["each_month_meat_slaughtered"]).kcals[i] == ser["retimed"][i],
+                    V(ra[0])[i] == ser["meat1"][i], V(ra[1])[i] == ser["meat2"][i]),
+                "feed_ceiling_is_the_feed_its_herds_used": V(tc2.get("max_feed_that_could_be_used") == ("MARKER", "feed_used2")
+                                                             and tc2.get("max_biofuel_that_could_be_used") == ("MARKER", "biofuel_demand")),
+                "herds_run_on_the_demand_schedule_and_the_common_grass": V(
+                    log.get("herd_simulation", ((), {}))[1].get("available_feed") == ("MARKER", "feed_demand")
+                    and log.get("herd_simulation", ((), {}))[1].get("available_grass") == ("MARKER", "grass")),
+                "no_feed_rounds_series_left_as_they_were": And(V(a["tc1"]["milk_kcals"])[i] == ser["milk1"][i],
+                                                             V(a["tc1"]["each_month_meat_slaughtered"]).kcals[i] == ser["meat1"][i])}
+
+
 class YieldsOfEveryRound(Contract):
     """Every round builds its own MeatAndDairy from the SAME constants dictionary: the per-head yields must come out
     the same each time (also with the documented large-animal weight override) and the dictionary must be left as
@@ -494,7 +609,7 @@ def herd_feed_per_round(repo, tier, seed):
 
 
 CONTRACTS = [MeatProduced(), MilkHerd(), PerHeadYields(), MeatAfterWaste(), MonthlyMeat(1), MonthlyMeat(3), MeatFromFeedResults(), Milk(True),
-             Milk(False), FeedUsedHandedOn(), YieldsOfEveryRound(False), YieldsOfEveryRound(True), RoundConversion()] + ([MonthlyMeat(6), MonthlyMeat(12)] if os.environ.get("VERIF_TIER") == "thorough" else [])
+             Milk(False), FeedUsedHandedOn(), YieldsOfEveryRound(False), YieldsOfEveryRound(True), RoundConversion(), MeatProducedTwice(), SecondRoundHandOff()] + ([MonthlyMeat(6), MonthlyMeat(12)] if os.environ.get("VERIF_TIER") == "thorough" else [])
 def _c07():
     from contracts import C07
     from contracts.common import relabelled
